@@ -8,3 +8,6 @@ package set
 //@ inline func (s Set[T]) Add(elements ...T) Set[T]
 //@ inline func (s Set[T]) Remove(elements ...T) Set[T]
 //@ inline func (s Set[T]) Contains(element T) bool
+//@ inline func New[T comparable](elements ...T) Set[T]
+//@   loop 0 modifies s
+//@   loop 0 invariant s != nil && (forall k T :: __in(s, k) == (exists j int :: 0 <= j && j < __ri(0) && elements[j] == k))
